@@ -6,15 +6,15 @@ import F1Verif.Generated.Facts
 import F1Verif.Expected
 namespace F1.Props.FactsC18
 
+-- (schedules_start, schedules_currentFrequency: re-proved semantically on the regenerated MiniGo programs, see Props/Refine*.lean)
+
 theorem fact_runner_Start : F1.Generated.skel_runner_Start = F1.Expected.skel_runner_Start := by rfl
 theorem fact_runner_Stop : F1.Generated.skel_runner_Stop = F1.Expected.skel_runner_Stop := by rfl
 theorem fact_runner_Restart : F1.Generated.skel_runner_Restart = F1.Expected.skel_runner_Restart := by rfl
-theorem fact_schedules_start : F1.Generated.skel_schedules_start = F1.Expected.skel_schedules_start := by rfl
 theorem fact_runner_New : F1.Generated.skel_runner_New = F1.Expected.skel_runner_New := by rfl
 theorem fact_schedules_new : F1.Generated.skel_schedules_new = F1.Expected.skel_schedules_new := by rfl
 theorem fact_schedules_startFirst : F1.Generated.skel_schedules_startFirst = F1.Expected.skel_schedules_startFirst := by rfl
 theorem fact_schedules_startNext : F1.Generated.skel_schedules_startNext = F1.Expected.skel_schedules_startNext := by rfl
-theorem fact_schedules_currentFrequency : F1.Generated.skel_schedules_currentFrequency = F1.Expected.skel_schedules_currentFrequency := by rfl
 theorem fact_schedules_stop : F1.Generated.skel_schedules_stop = F1.Expected.skel_schedules_stop := by rfl
 theorem fact_schedules_timeUntilNextSchedule : F1.Generated.skel_schedules_timeUntilNextSchedule = F1.Expected.skel_schedules_timeUntilNextSchedule := by rfl
 theorem fact_schedules_currentScheduleTicker : F1.Generated.skel_schedules_currentScheduleTicker = F1.Expected.skel_schedules_currentScheduleTicker := by rfl
